@@ -99,7 +99,21 @@ def go_tables(models, prog, gen_dir, pkgs):
         fs = []
         for f in e["fields"]:
             t = qtype(resolve(models, owner_prog, f["type"]))
-            fs.append("{ID: %d, Name: %s, Req: %d, T: %s}" % (f["id"], json.dumps(f["name"]), {"required": 0, "optional": 1, "default": 2}[f["req"]], go_type(t)))
+            dflt = ""
+            d = f.get("default")
+            if d is not None and t["k"] in ("i8", "i16", "i32", "i64", "enum"):
+                d = d.strip().rstrip(",;").strip()
+                dn = None
+                if re.fullmatch(r"-?\d+", d):
+                    dn = int(d)
+                elif t["k"] == "enum":
+                    for mm in models.values():
+                        for (en, ev) in mm["enums"].get(t["name"], []):
+                            if d.split(".")[-1] == en and dn is None:
+                                dn = ev
+                if dn is not None:
+                    dflt = ", HasDef: true, DefN: %d" % dn
+            fs.append("{ID: %d, Name: %s, Req: %d, T: %s%s}" % (f["id"], json.dumps(f["name"]), {"required": 0, "optional": 1, "default": 2}[f["req"]], go_type(t), dflt))
         lines.append("\tverifModel[%s] = &verifS{Name: %s, Union: %s, Fields: []verifF{%s}, New: func() thrift.TStruct { return %s }}" % (
             json.dumps(qual), json.dumps(e["wire_name"]), "true" if e["union"] else "false", ", ".join(fs), ctor_expr))
 
